@@ -112,9 +112,17 @@ def make_inmem(m, name="m"):
         return mp
     linked = None
     if m.get("linked"):
+        # Dict[edge, Set[edge]] is the documented type (and what connect_parallelroads builds); lists are accepted too and
+        # keep the user's order: both forms are used, chosen by the content of the map
+        as_list = len(repr(m["linked"])) % 2 == 0
         linked = {}
         for (a, b), (c, d) in m["linked"]:
-            linked.setdefault((a, b), set()).add((c, d))
+            if as_list:
+                lst = linked.setdefault((a, b), [])
+                if (c, d) not in lst:
+                    lst.append((c, d))
+            else:
+                linked.setdefault((a, b), set()).add((c, d))
     return InMemMap(name, graph=graph, use_latlon=bool(m.get("latlon")), linked_edges=linked)
 
 
@@ -191,13 +199,29 @@ def matcher_kwargs(cfg):
     return kw
 
 
+# positional order of BaseMatcher.__init__ after map_con (documented signature)
+_POSITIONAL = ("obs_noise", "max_dist_init", "max_dist", "min_prob_norm", "non_emitting_states", "max_lattice_width", "only_edges")
+
+
 def make_matcher(mp, cfg):
+    """the calling convention is part of the workload: depending on the configuration (deterministically, so that replays
+    agree) the leading options are passed positionally - obs_noise only, or the first four - instead of by keyword."""
     kw = matcher_kwargs(cfg)
+    style = sum(ord(ch) for ch in repr(sorted((k, v) for k, v in cfg.items() if k != "family"))) % 5
+    npos = {1: 1, 2: 4}.get(style, 0)
+    args = []
+    for name in _POSITIONAL[:npos]:
+        if name not in kw:
+            if name in ("max_dist_init", "max_dist", "min_prob_norm"):
+                kw[name] = None
+            else:
+                break
+        args.append(kw.pop(name))
     if cfg["family"] == "distance":
-        return DistanceMatcher(mp, **kw)
+        return DistanceMatcher(mp, *args, **kw)
     if cfg["family"] == "newsonkrumm":
-        return NewsonKrummMatcher(mp, **kw)
-    return SimpleMatcher(mp, **kw)
+        return NewsonKrummMatcher(mp, *args, **kw)
+    return SimpleMatcher(mp, *args, **kw)
 
 
 def trace(tr):
